@@ -362,10 +362,7 @@ def norm_model(line, mx):
     return line
 
 
-def run(ctx):
-    ctx.engines = ["connguard (harness/src/bin/connguard.rs over a real Server on loop-back TCP vs modelrun/connguard_driver.ml over coq/Model/ConnGuard.v)"]
-    impl, model = vlib.rust_bin("connguard"), vlib.model_bin("connguard")
-    cases = gen_cases(ctx)
+def evaluate(ctx, cases, impl, model):
     lines = [s.line() for _, s in cases]
     ri = vlib.run_lines([impl], lines, shards=vlib.NCPU, min_shard=4, timeout=3000)
     rm = vlib.run_lines([model], lines, min_shard=200)
@@ -388,6 +385,22 @@ def run(ctx):
             continue
         for key, detail in oracle(s.mx, s.mode, s.toks, res, s.final_at):
             ctx.fail("oracle", key, case, detail)
+    return steps
+
+
+def run(ctx):
+    ctx.engines = ["connguard (harness/src/bin/connguard.rs over a real Server on loop-back TCP vs modelrun/connguard_driver.ml over coq/Model/ConnGuard.v)"]
+    impl, model = vlib.rust_bin("connguard"), vlib.model_bin("connguard")
+    cases = gen_cases(ctx)
+    # a pilot slice first: on a broken server every step runs into its bounded wait, so when the pilot already
+    # fails the bulk is not run (the failing inputs are in hand)
+    stride = max(1, len(cases) // 160)
+    pilot, bulk = cases[::stride], [c for k, c in enumerate(cases) if k % stride]
+    steps = evaluate(ctx, pilot, impl, model)
+    if any(f["kind"] in ("oracle", "diff") for f in ctx.failures):
+        ctx.note("pilot slice (%d cases) failed; remaining %d cases not run" % (len(pilot), len(bulk)))
+    else:
+        steps += evaluate(ctx, bulk, impl, model)
     ctx.count("steps-total", steps)
     ctx.extra["steps_executed_on_real_server"] = steps
 
